@@ -378,6 +378,12 @@ class AnsiString:
             # Ignore - nothing to apply
             return
 
+        # Parse the settings before anything is changed so that invalid settings leave this object untouched
+        if not settings:
+            ansi_settings = None
+        else:
+            ansi_settings = _AnsiSettingPoint._scrub_ansi_settings(settings)
+
         # Settings (in order of precedence) at the end index before anything is changed
         settings_at_end = self.ansi_settings_at(end)
 
@@ -386,11 +392,6 @@ class AnsiString:
 
         if end not in self._fmts:
             self._fmts[end] = _AnsiSettingPoint()
-
-        if not settings:
-            ansi_settings = None
-        else:
-            ansi_settings = _AnsiSettingPoint._scrub_ansi_settings(settings)
 
         removed_settings = []
         for idx, settings_point, current_settings in _AnsiSettingsIterator(self._fmts):
